@@ -43,6 +43,9 @@ def check(pid, tier):
         import props
         from pyvc import runner
 
+        if pid in props.BROKEN:
+            print("CHECKER-ERROR %s: %s" % (pid, props.BROKEN[pid]), file=sys.stderr)
+            return 3
         if pid not in props.PROPS:
             print("CHECKER-ERROR unknown or unclaimed property %s" % pid, file=sys.stderr)
             return 3
